@@ -233,6 +233,10 @@ fn drive(spec: &WorldSpec, running: Arc<AtomicBool>) -> DriverOut {
         let m: std::collections::HashMap<u8, u8> = std::collections::HashMap::new();
         drop(m);
         if let Ok(file) = File::open(&spec.files[0].0) {
+            // metadata and path resolution of a simulated file
+            let len = file.metadata().map(|m| m.len() as i64).unwrap_or(-1);
+            let canon = std::fs::canonicalize(&spec.files[0].0).map(|p| p.display().to_string()).unwrap_or_else(|e| format!("error {}", e));
+            seam::with_world(|w| w.on_deliver(format!("meta {} {}", len, canon).as_bytes()));
             let mut reader = BufReader::with_capacity(8, file);
             let _ = reader.seek(SeekFrom::End(0));
             let _ = reader.seek(SeekFrom::Start(0));
